@@ -15,7 +15,7 @@ pub const DEF: PropDef = PropDef {
     run,
     replay,
     level: "exploration",
-    rule: "cases = (protocol name, suite, backend pair, payload length per handshake message in 0..=max, transport script of up to 30 messages with direction interleaving, stateful/stateless per side, stateless nonce choice and delivery order, whether the peer's true static key is ALSO supplied up front where the pattern transmits it (pinning), how the PSKs reach each side: at build time, or by set_psk just before the first message that needs them on the initiator only / the responder only / both); static keys come from Builder::generate_keypair (in one session out of eight both sides hold the same pair) and ephemerals from the library's own OS RNG (recorded); non-trivial = session finished on both sides and at least one transport message delivered; distinct by (name, suite, payload length vector, transport script)",
+    rule: "cases = (protocol name, suite, backend pair, payload length per handshake message in 0..=max, transport script of up to 30 messages with direction interleaving, stateful/stateless per side, stateless nonce choice and delivery order, whether the peer's true static key is ALSO supplied up front where the pattern transmits it (pinning), how the PSKs reach each side: at build time, or by set_psk just before the first message that needs them on the initiator only / the responder only / both); in a quarter of the cases the caller first offers a buffer one byte too small to each handshake write and read and then repeats the call properly (caller-side retries; the messages are still exchanged unmodified); static keys come from Builder::generate_keypair (in one session out of eight both sides hold the same pair) and ephemerals from the library's own OS RNG (recorded); non-trivial = session finished on both sides and at least one transport message delivered; distinct by (name, suite, payload length vector, transport script)",
     technique: "round-trip property over generated honest sessions with real randomness (proptest + name-space enumeration); pattern message counts from an independent table",
     assumptions: &["the number of messages per pattern is taken from the harness's own transcription of the specification's pattern table"],
     panic_is_violation: true,
@@ -187,10 +187,29 @@ pub fn oracle(c: &Case, acc: &mut Acc) -> CaseResult {
         }
         let (w, r) = if i_sends { (&mut hi, &mut hr) } else { (&mut hr, &mut hi) };
         ensure!(w.is_my_turn() && !r.is_my_turn(), "{name}: turn indicators wrong before message {idx}");
+        // caller-side retries (a quarter of the cases): the application first offers a buffer one
+        // byte too small for the message, resp. for the payload, and then repeats the call properly -
+        // the messages are still exchanged unmodified, so the session must complete all the same
+        let retries = (c.fill / 13) % 4 == 1 && c.shaped.is_none();
+        if retries {
+            if let Some(l) = &lay {
+                let need = l[idx].overhead + plen;
+                match hs_write(w, &payload, need - 1) {
+                    Err(_) => acc.label("caller_retry:write into a buffer one byte too small, then repeated"),
+                    Ok(_) => return Err(Fail::setup(format!("{name}: write of message {idx} into {} bytes succeeded although {need} are needed (C14's business)", need - 1))),
+                }
+            }
+        }
         let msg = hs_write(w, &payload, 65535 + 16)
             .map_err(|e| Fail::new(format!("{name}: honest write of message {idx} (payload {plen} of max {max}) failed: {e:?}; {}", keyinfo())))?;
         if let Some(l) = &lay {
             ensure!(msg.len() == l[idx].overhead + plen, "{name}: message {idx} has length {} but overhead {} + payload {plen} expected", msg.len(), l[idx].overhead);
+        }
+        if retries && plen > 0 {
+            match hs_read(r, &msg, plen - 1) {
+                Err(_) => acc.label("caller_retry:read into a payload buffer one byte too small, then repeated"),
+                Ok(_) => return Err(Fail::setup(format!("{name}: read of message {idx} into a payload buffer of {} bytes succeeded although {plen} are needed (C14's business)", plen - 1))),
+            }
         }
         let got = hs_read(r, &msg, plen + 16).map_err(|e| Fail::new(format!("{name}: honest read of message {idx} failed (psk supply mode {late_mode}: 0 build, 1 initiator by set_psk, 2 responder by set_psk, 3 both): {e:?}; {}", keyinfo())))?;
         ensure!(got == payload, "{name}: handshake payload {idx} not returned intact; {}", keyinfo());
